@@ -108,7 +108,6 @@ SecpSMT.aff_coords SecpSMT
 SecpSMT.aff_of SecpSMT
 SecpSMT.neg_parity SecpSMT
 SecpSMT.fneg_sq SecpSMT
-SecpSMT.finv_neg SecpSMT
 SecpSMT.poly_nonzero SecpSMT
 SecpSMT.sq_zero SecpSMT
 SecpSMT.firstnz_step SecpSMT
